@@ -1028,10 +1028,10 @@ func main() {
 			cases = []Case{c}
 		}
 	} else {
-		nSeq := a.Pick(64, 640)
-		nRace := a.Pick(150, 2000)
-		nE2E := a.Pick(5, 24)
-		nE2ERace := a.Pick(4, 16)
+		nSeq := a.Pick(112, 640)
+		nRace := a.Pick(300, 3000)
+		nE2E := a.Pick(8, 30)
+		nE2ERace := a.Pick(6, 20)
 		for i := 0; i < nSeq; i++ {
 			cases = append(cases, genSeq(rng.Fork(), a.Tier))
 		}
